@@ -176,7 +176,7 @@ PROPS.update({
     "C20": {
         "level": "exploration", "exhaustive": True,
         "lanes": LANES_STD,
-        "rule": "constructors: every dimension pair over {0..N} u {usize::MAX, usize::MAX/2+1, 2^32, 2^32+1, 2^63} x buffer lengths {0, 1, prod-1, prod, prod+1, prod+7, the wrapped product} for from_vec, from_box (Kv, Tok, Zst), TooDeeView::new, TooDeeViewMut::new, and new/init on the same pairs (accepted products capped at 4096 cells): accepted results are compared with the model (dims, row-major cells: default / clone of the given value / the given buffer by identity; views by address), must-panic for overflow, misfit and exactly-one-zero dimension. From<view>/From<view_mut> for every window of every parent up to MxM (equal cells, fresh owners, parent untouched). Conversions Vec::from, Box::from, AsRef/AsMut, into_iter consumed (front,back) then dropped: cells row-major by identity, ledger exactly-once. clone(): equal, separate buffer, separate owners, mutating the clone leaves the original intact. Eq/Hash: ALL pairs of arrays with cells over {0,1} of up to K cells in every factorisation shape: a==b iff same dims and cells, a==b implies equal hashes; arrays with a NaN cell are unequal even to themselves. distinct = constructor (kind, dim classes, dims, buffer relation, element type, accepted|rejected), conversion, window and array-pair cases that passed. Plus giant arrays of zero-sized elements (dimensions such as (2^32+1)x(2^32-1), 3x(usize::MAX/3), usize::MAXx1), where sums and products of REAL in-range dimensions approach usize::MAX: judged by sizes, lengths and the must-panic rule.",
+        "rule": "constructors: every dimension pair over {0..N} u {usize::MAX, usize::MAX/2+1, 2^32, 2^32+1, 2^63} x buffer lengths {0, 1, prod-1, prod, prod+1, prod+7, the wrapped product} for from_vec, from_box (Kv, Tok, Zst), TooDeeView::new, TooDeeViewMut::new, and new/init on the same pairs (accepted products capped at 4096 cells): accepted results are compared with the model (dims, row-major cells: default / clone of the given value / the given buffer by identity; views by address), must-panic for overflow, misfit and exactly-one-zero dimension. From<view>/From<view_mut> for every window of every parent up to MxM (equal cells, fresh owners, parent untouched). Conversions Vec::from, Box::from, AsRef/AsMut, into_iter consumed (front,back) then dropped: cells row-major by identity, ledger exactly-once. The by-value iterator additionally runs side by side with std's vec::IntoIter over the expected cells under every script of up to two steps over {next, next_back, nth(k), nth_back(k)}, k in {0,1,2,C,n-1,n,n+1,usize::MAX}, then one of seven endings (drop, collect, rev().collect(), count, last, fold, rfold): items by identity, len/size_hint after every step, skipped elements dropped exactly once, no leak. clone(): equal, separate buffer, separate owners, mutating the clone leaves the original intact. Eq/Hash: ALL pairs of arrays with cells over {0,1} of up to K cells in every factorisation shape: a==b iff same dims and cells, a==b implies equal hashes; arrays with a NaN cell are unequal even to themselves. distinct = constructor (kind, dim classes, dims, buffer relation, element type, accepted|rejected), conversion, window and array-pair cases that passed. Plus giant arrays of zero-sized elements (dimensions such as (2^32+1)x(2^32-1), 3x(usize::MAX/3), usize::MAXx1), where sums and products of REAL in-range dimensions approach usize::MAX: judged by sizes, lengths and the must-panic rule.",
         "must_observe": ["accepted", "rejected", "eq_pairs"],
         "text": "Bounded-exhaustive runtime exploration of every constructor and conversion over small and overflow-provoking dimension pairs and buffer lengths, Copy / owning / zero-sized elements, plus an all-pairs Eq/Hash sweep; judged by the model, address identity, the ledger and the must-panic rule.",
         "design_ref": "DESIGN.md 5 (C20)", "technique": "runtime monitoring: reference model + must-panic rule + drop ledger over exhaustive dimension/buffer pairs, sanitizer lanes",
